@@ -1,12 +1,19 @@
 /-
   C16 — pg_control fields and CRC verdict equal the stored control data.
   Property theorems only; helper lemmas are in Proofs/Crc.lean and Proofs/Control.lean.
-  The model is that of control.go with the repairs of /verif/fixes/control (01–04) applied; the
+  The model is that of control.go with the repairs of /verif/fixes/control (01–04, 10) applied; the
   `witness_*` theorems at the end show, on the model of the code as it was written, the defects those
   repairs remove.
+  What "every reported field" means below: `Spec.ControlView` has 45 fields — 41 of the 51 members of ControlFileData
+  before the crc (float format and data_checksum_version as flags), the stored crc, and three derived ones (state name,
+  redo WAL file name, CRC verdict).  The 10 stored members the tool does not report at all (time, unloggedLSN,
+  minRecoveryPoint, minRecoveryPointTLI, backupStartPoint, backupEndPoint, backupEndRequired, the two pass-by-value
+  bytes at 248/249, mock_authentication_nonce) are outside the property's list and outside the
+  theorems.  `pg_version_major` is a 46th reported field, inferred from the two version numbers: `C16_version_major*`.
 -/
 import PgVerif.Proofs.Control
 import PgVerif.Proofs.ControlTotal
+import PgVerif.Proofs.ControlAny
 import PgVerif.Model.ControlOrig
 import PgVerif.Generated.Control
 import PgVerif.Spec.ControlAnchor
@@ -33,6 +40,17 @@ theorem C16_fields_read (c : ControlData) (h : c.WF) (crc pad : Nat) (hcrc : crc
     (fs : String → Option Bytes) (dir : String) (hfs : fs (dir ++ "/global/pg_control") = some (encControl c crc pad)) :
     ∃ f, Model.readControlFile fs dir = .ok (some f) ∧ f.toView = viewControl c crc := by
   unfold Model.readControlFile; rw [hfs]; exact parseControlFile_enc c h crc pad hcrc
+
+/-- CRC verdict on ANY image.  For every byte string of at least 296 bytes — any field values, any bytes in the struct's
+padding holes and after the struct — ParseControlFile succeeds, reports the four bytes at offset 288 as the stored crc,
+and reports the CRC valid iff they are the CRC-32C (bit-serial definition, `Spec.crc32c`) of the 288 bytes before them;
+the two reported version numbers are the stored ones and `pg_version_major` is inferPGVersion of them. -/
+theorem C16_crc_any_image (bs : Bytes) (h : bs.length ≥ 296) :
+    ∃ f, Model.parseControlFile bs = .ok (some f) ∧ f.crc = rdAt 4 288 bs ∧
+      f.crcValid = (rdAt 4 288 bs == crc32c (bs.take 288)) ∧
+      f.pgControlVersion = rdAt 4 8 bs ∧ f.catalogVersionNo = rdAt 4 12 bs ∧
+      f.pgVersionMajor = Model.inferPGVersion (rdAt 4 8 bs) (rdAt 4 12 bs) :=
+  parseControlFile_any bs h
 
 /-- non-vacuity: a typical PostgreSQL 16 control data is well-formed, and its image parses to its view -/
 example : Gen.typicalControl.WF := by decide
@@ -92,8 +110,10 @@ example : (2 : Nat) ^ 24 ∈ legalSegSizes := by decide
 /-- LSN text: `%X/%X` of the high and low halves, for every 64-bit value. -/
 theorem C16_lsn (lsn : Nat) (h : lsn < 2 ^ 64) : Model.ctlFormatLSN lsn = Spec.lsnText lsn := ctlFormatLSN_eq lsn h
 
-/-- Names.  DBState.String is pg_controldata's wording on the seven defined states and "unknown (n)" on every
-other int32; the WAL level names are PostgreSQL's; and the model agrees with the graphs of DBState.String,
+/-- Names.  DBState.String is pg_controldata's wording on the seven defined states; on every other int32 it is
+"unknown (n)" — the TOOL's wording, which the Spec adopts (pg_controldata prints "unrecognized status code" there; the
+property asks for the state to equal the stored field, which is reported as the number beside the name); the WAL level
+names are PostgreSQL's; and the model agrees with the graphs of DBState.String,
 the WAL level naming and inferPGVersion obtained by executing the Go code (Generated/Control.lean, re-created
 from the code on every run) on the breakpoint grids. -/
 theorem C16_names (s : Int) : Model.dbStateString s = Spec.stateName s := dbStateString_eq s
@@ -108,7 +128,47 @@ set_option maxRecDepth 100000 in
 theorem C16_names_version_graph :
     ∀ p ∈ Generated.Control.inferPGVersionGraph, Model.inferPGVersion p.1.1 p.1.2 = p.2 := by decide +kernel
 
+/-- Major version (REVIEW B12; fixes/control/10).  For every pair (PG_CONTROL_VERSION, CATALOG_VERSION_NO) a released
+PostgreSQL 12, 13, 14, 15 or 16 writes (`Spec.pgReleases`: 1201/201909212, 1300/202007201, 1300/202107181,
+1300/202209061, 1300/202307071) inferPGVersion answers that major version. -/
+theorem C16_version_major (cv cat M : Nat) (h : pgMajorOf cv cat = some M) : Model.inferPGVersion cv cat = M := by
+  unfold pgMajorOf at h
+  cases hf : pgReleases.find? (fun r => r.2.1 == cv && r.2.2 == cat) with
+  | none => simp [hf] at h
+  | some r =>
+    have hm := List.mem_of_find?_eq_some hf
+    have hp := List.find?_some hf
+    simp only [hf, Option.map_some, Option.some.injEq] at h
+    simp only [Bool.and_eq_true, beq_iff_eq] at hp
+    obtain ⟨h1, h2⟩ := hp
+    subst h h1 h2
+    simp only [pgReleases, List.mem_cons, List.not_mem_nil, or_false] at hm
+    rcases hm with rfl | rfl | rfl | rfl | rfl <;> decide
+
+/-- … and so does ParseControlFile (`pg_version_major` of the report) on every well-formed image carrying such a pair,
+whatever the other fields, the stored crc and the padding are. -/
+theorem C16_version_major_file (c : ControlData) (h : c.WF) (crc pad : Nat) (hcrc : crc < 2 ^ 32) (M : Nat)
+    (hM : pgMajorOf c.pgControlVersion c.catalogVersionNo = some M) :
+    ∃ f, Model.parseControlFile (encControl c crc pad) = .ok (some f) ∧ f.pgVersionMajor = M := by
+  obtain ⟨f, h1, _, h3⟩ := parseControlFile_enc_full c h crc pad hcrc
+  exact ⟨f, h1, by rw [h3]; exact C16_version_major _ _ _ hM⟩
+
+/-- non-vacuity: the typical control data is a PostgreSQL 16 one -/
+example : pgMajorOf Gen.typicalControl.pgControlVersion Gen.typicalControl.catalogVersionNo = some 16 := by decide
+
+/-- Between the release values the answer is the tool's choice (the Spec is silent): every catalog version from a
+release's value up to the next release's is reported as that release, for every control version ≥ 1201. -/
+theorem C16_version_bands (cv cat : Nat) (hcv : cv ≥ 1201) :
+    Model.inferPGVersion cv cat =
+      if cat ≥ 202307071 then 16 else if cat ≥ 202209061 then 15 else if cat ≥ 202107181 then 14
+      else if cat ≥ 202007201 then 13 else 12 := by
+  unfold Model.inferPGVersion; rw [if_pos hcv]
+
 /-! ### the defects the repairs remove, on the model of the code as written (Model.Orig) -/
+
+/-- B12: as written, genuine PostgreSQL 12, 13 and 14 control files were reported as 13, 15 and 15 -/
+theorem witness_B12 : Model.Orig.inferPGVersion 1201 201909212 = 13 ∧ Model.Orig.inferPGVersion 1300 202007201 = 15 ∧
+    Model.Orig.inferPGVersion 1300 202107181 = 15 := by decide
 
 /-- A50: on a typical image the storage-section search finds nothing (it looks for 8, _, 8192, _, 8192 from offset
 220 on; the real fields are maxAlign@204, floatFormat@208, blcksz@216), so sizes were defaults and checksums "off" -/
